@@ -49,6 +49,13 @@ def gen_create(rng, state, weights):
     if below and rng.random() < weights.get("sf", 0.2):
         k = rng.randint(1, min(2, len(below)))
         picks = rng.sample(below, k)
+        hidden = [f for f in below if any(f.startswith(h + "/") for h in state.get("hidden", []))]
+        if hidden and rng.random() < 0.5:
+            picks = [rng.choice(hidden)]  # a file of a nested history that this history's patterns hide
+        pairs = [lt for lt in state.get("links", []) if lt[0] in below and lt[1] in below]
+        if pairs and rng.random() < 0.6:
+            picks = list(rng.choice(pairs))  # both names of one inode in the same call
+            rng.shuffle(picks)
         if below_dirs and rng.random() < 0.3:
             d = rng.choice(below_dirs)
             picks = [p for p in picks if not p.startswith(d + "/")] + [d]
@@ -62,6 +69,13 @@ def gen_create(rng, state, weights):
         if rng.random() < weights.get("i", 0.15):
             for _ in range(rng.randint(1, 2)):
                 args += ["-i", rng.choice(PATTERNS)]
+            nested_below = [n for n in state["nested"] if n != root and (not root or n.startswith(root + "/"))]
+            if nested_below and rng.random() < 0.4:
+                # a pattern that hides a nested history (its folder or an ancestor folder) from this history
+                n = rng.choice(nested_below)
+                rel = n[len(root) + 1:] if root else n
+                args[-1] = rng.choice([os.path.basename(rel), rel.split("/")[0], "/" + rel, os.path.basename(rel) + "/"])
+                state.setdefault("hidden", []).append(n)
         if rng.random() < weights.get("ii", 0.05):
             args += ["-ii", "@M/patterns.txt"]
     if rng.random() < weights.get("creator", 0.2):
@@ -207,8 +221,21 @@ def generate(rng, tier, weights=None, max_ops=None, hostile=0.2):
         big = rng.choice([""] + gen.tree_dirs(tree))
         for i in range(rng.randint(11, 18)):
             tree[(big + "/" if big else "") + f"many{i:02d}.dat"] = {"t": "f", "c": gen.unique_content(rng, 4)}
+    links = []
+    if rng.random() < weights.get("hardlinks", 0.0):
+        # second names (hard links) for files of the tree, as left by `cp -l` or rsync --link-dest
+        for _ in range(rng.randint(1, 2)):
+            cands = [f for f in gen.tree_files(tree) if tree[f]["t"] == "f"]
+            if not cands:
+                break
+            target = rng.choice(cands)
+            parent = rng.choice([""] + gen.tree_dirs(tree))
+            rel = (parent + "/" if parent else "") + rng.choice(["best_take.mov", "hl_copy.bin", "0link", "zlink.dat"])
+            if rel not in tree:
+                tree[rel] = {"t": "h", "to": target}
+                links.append((rel, target))
     env["tree"] = tree
-    state = {"tree": dict(tree), "nested": []}
+    state = {"tree": dict(tree), "nested": [], "links": links}
     ops = []
     if rng.random() < weights.get("ii", 0.05) * 4 + 0.05:
         lines = [rng.choice(PATTERNS) for _ in range(rng.randint(1, 3))]
